@@ -23,8 +23,8 @@ func (r *Rng) Intn(n int) int {
 }
 
 // Range returns a value in [lo, hi]
-func (r *Rng) Range(lo, hi int) int { return lo + r.Intn(hi-lo+1) }
-func (r *Rng) Bool() bool           { return r.U64()&1 == 1 }
+func (r *Rng) Range(lo, hi int) int     { return lo + r.Intn(hi-lo+1) }
+func (r *Rng) Bool() bool               { return r.U64()&1 == 1 }
 func (r *Rng) Chance(num, den int) bool { return r.Intn(den) < num }
 
 func (r *Rng) Bytes(n int) []byte {
